@@ -151,6 +151,9 @@ func TestC19(t *testing.T) {
 		fixedL := []fixed{
 			// good commit, (policy p1 made current), good commit, killed run
 			{"good-run-good", []Action{good, run, good}},
+			// a failed compile that could not be reverted has left its
+			// marker and next/ behind; then a good commit arrives
+			{"good-run-badnoemail-run-good", []Action{good, run, {Op: "commit", Bad: true, NoEmail: true}, run, good}},
 		}
 		step := 5
 		if props.Thorough() {
@@ -183,7 +186,8 @@ func TestC19(t *testing.T) {
 			for k := 1; k <= len(tr); k++ {
 				// Quick: every 5th position, and every position inside
 				// handle_success (commit, push, promotion).
-				if k%step != 0 && !strings.HasPrefix(tr[k-1], "[handle_success]") {
+				if k%step != 0 && !strings.HasPrefix(tr[k-1], "[handle_success]") &&
+					!(f.name == "good-run-badnoemail-run-good" && strings.HasPrefix(tr[k-1], "[prepare_next]")) {
 					continue
 				}
 				mine := idx%nshards == shard
